@@ -14,7 +14,7 @@ class Spec(CheckSpec):
     timeout = 180
     rule = (
         "one evaluation = one simulated run. Twin-world runs: two simulations built from one generated scenario (switched "
-        "LAN, one or two routers, firewall with DMZ; attacker A and victim B placed at random, A carrying the red "
+        "LAN, one or two routers, firewall with DMZ, two wireless routers joined over the air; attacker A and victim B placed at random, A carrying the red "
         "applications, database/FTP/terminal clients, nmap and optionally a C2 server or beacon aimed at B); 0-14 seeded "
         "ops of ordinary traffic in both worlds (warm caches, open connections, sessions, C2 channels), then one seeded "
         "blocking mechanism on the only physical path (deny rule of a seeded shape in the router list or in either of the "
